@@ -64,3 +64,113 @@ async def async_work(x):
 
 def ident(x):
     return x
+
+
+# ----------------------------------------------------------------------------- C12 / C20 targets
+class ReduceExc(Exception):
+    """Custom __init__ + __reduce__: constructor takes a keyword-ish payload."""
+
+    def __init__(self, code, detail=None):
+        super().__init__(code)
+        self.code = code
+        self.detail = detail
+
+    def __reduce__(self):
+        return (ReduceExc, (self.code, self.detail))
+
+
+class KwOnlyExc(Exception):
+    def __init__(self, *, reason):
+        super().__init__(reason)
+        self.reason = reason
+
+    def __reduce__(self):
+        return (_make_kwonly, (self.reason,))
+
+
+def _make_kwonly(reason):
+    return KwOnlyExc(reason=reason)
+
+
+EXC_TABLE = {
+    'ValueError': ValueError, 'KeyError': KeyError, 'Boom': Boom, 'Boom2': Boom2, 'OSError': OSError, 'ReduceExc': ReduceExc,
+    'KwOnlyExc': KwOnlyExc, 'AssertionError': AssertionError, 'KeyboardInterrupt': KeyboardInterrupt, 'ZeroDivisionError': ZeroDivisionError,
+    'UnicodeDecodeError': UnicodeDecodeError, 'FileNotFoundError': FileNotFoundError, 'RuntimeError': RuntimeError, 'StopIteration': StopIteration,
+    'Reject': Reject, 'LookupError': LookupError, 'TimeoutError': TimeoutError, 'ConnectionResetError': ConnectionResetError,
+}
+
+
+def make_exc(name, args, kwargs=None):
+    cls = EXC_TABLE[name]
+    if kwargs:
+        return cls(**kwargs)
+    return cls(*args)
+
+
+def c12_target(spec, ready=None):
+    """spec: ['return', v] | ['raise', clsname, args, kwargs] | ['exit', code] | ['sleep', seconds] | ['linger', v, seconds]"""
+    import sys
+    import threading
+
+    if ready is not None and spec[0] != 'linger':
+        ready.set()
+    kind = spec[0]
+    if kind == 'return':
+        v = spec[1]
+        if isinstance(v, list) and len(v) == 2 and v[0] == '__bytes__':
+            return b'z' * v[1]
+        return v
+    if kind == 'raise':
+        raise make_exc(spec[1], spec[2], spec[3] if len(spec) > 3 else None)  # SITE-MARK-C12 raise
+    if kind == 'exit':
+        sys.exit(spec[1])
+    if kind == 'sleep':
+        time.sleep(spec[1])
+        return 'slept'
+    if kind == 'linger':
+        def stay():
+            time.sleep(0.15)
+            if ready is not None:
+                ready.set()
+            time.sleep(spec[2])
+
+        threading.Thread(target=stay, name='linger').start()
+        return spec[1]
+    raise ValueError(kind)
+
+
+def c20_target(spec):
+    """Emit numbered log records, then end per spec['ending'].
+    spec: {'n': int, 'size': int, 'ending': 'return'|'raise'|'exit', 'levels': bool, 'burst_at_end': bool, 'threads': int}"""
+    import logging
+    import sys
+    import threading
+
+    lg = logging.getLogger('vf.child')
+    n, size = spec['n'], spec['size']
+    pad = 'p' * max(0, size - 12)
+    levels = [logging.DEBUG, logging.INFO, logging.WARNING, logging.ERROR]
+
+    def emit(lo, hi, th):
+        for i in range(lo, hi):
+            lvl = levels[i % 4] if spec.get('levels') else logging.WARNING
+            lg.log(lvl, 'rec %d %d %s', th, i, pad)
+
+    nthreads = spec.get('threads', 1)
+    if nthreads > 1:
+        per = n // nthreads
+        ths = [threading.Thread(target=emit, args=(0, per, t)) for t in range(nthreads)]
+        for t in ths:
+            t.start()
+        for t in ths:
+            t.join()
+    else:
+        emit(0, n, 0)
+    if spec.get('pause_before_end'):
+        time.sleep(spec['pause_before_end'])
+    ending = spec['ending']
+    if ending == 'raise':
+        raise Boom('c20', n)
+    if ending == 'exit':
+        sys.exit(3)
+    return ('done', n)
